@@ -291,10 +291,14 @@ theorem elem_correct (C : QCtx D) (σ : Env D) (ptr : Bool) :
       elemSem C steps v = .ok o →
       (o = none → condsF C.N σ (stepConds ptr cur curTy steps).1 = .ok false) ∧
       (∀ w, o = some w → condsF C.N σ (stepConds ptr cur curTy steps).1 = .ok true ∧
-          evalE C.N σ (stepConds ptr cur curTy steps).2.1 = .ok w)
-  | [], cur, curTy, v, o, hcur, _, _, _, hs => by
+          evalE C.N σ (stepConds ptr cur curTy steps).2.1 = .ok w ∧
+          (∀ t, (stepConds ptr cur curTy steps).2.2 = some t → HasTy w t) ∧
+          ((stepConds ptr cur curTy steps).2.2 = none → w = v ∧ curTy = none))
+  | [], cur, curTy, v, o, hcur, hty, _, _, hs => by
     simp only [elemSem, Except.ok.injEq] at hs; subst hs
-    simp [stepConds, condsF, hcur]
+    simp only [stepConds, condsF, hcur, reduceCtorEq, false_implies, true_and, Option.some.injEq]
+    intro w hw; subst hw
+    exact ⟨rfl, hty, fun h => ⟨rfl, h⟩⟩
   | .sel f :: rest, cur, curTy, v, o, hcur, hty, hwt, hm, hs => by
     simp only [wtSteps, Bool.and_eq_true] at hwt
     simp only [elemSem, peSem] at hs
@@ -309,7 +313,12 @@ theorem elem_correct (C : QCtx D) (σ : Env D) (ptr : Bool) :
       have := elem_correct C σ ptr rest (compPE (ptr && curTy.isNone) cur (curT curTy) f) (some (tyPE (curT curTy) f)) w' o
         (by rw [hpe.1]; exact hd) (fun t ht => by simp only [Option.some.injEq] at ht; subst ht; exact hw'ty)
         hwt.2 (methTyped_of_hasTy hw'ty _) hs
-      simpa [stepConds, curT] using this
+      simp only [stepConds]
+      refine ⟨this.1, fun w hw => ?_⟩
+      obtain ⟨h1, h2, h3, h4⟩ := this.2 w hw
+      refine ⟨h1, h2, h3, fun hn => ?_⟩
+      have := (h4 hn).2
+      simp at this
   | .whr c :: rest, cur, curTy, v, o, hcur, hty, hwt, hm, hs => by
     simp only [wtSteps, Bool.and_eq_true, beq_iff_eq] at hwt
     simp only [elemSem, peSem] at hs
